@@ -59,9 +59,12 @@ Definition cursor_to (c : chain) (cur : cursor) (op : cop) : cres * cursor :=
                 end
       end in
     match st with
-    | None => (CRNotFound, {| c_cn := None; c_pos := c_pos cur; c_skip := 0; c_pend := PNone |})
+    | None => (CRNotFound, {| c_cn := None; c_pos := c_pos cur; c_skip := c_skip cur; c_pend := PNone |})
     | Some (cc, pend) =>
-      let fin r cc' p := (r, {| c_cn := Some cc'; c_pos := p; c_skip := 0; c_pend := pend |}) in
+      (* `finish:` - a move that found nothing (IWKV_ERROR_NOTFOUND) keeps the step still owed to a record deleted under the
+         cursor; every other outcome clears it *)
+      let fin r cc' p := (r, {| c_cn := Some cc'; c_pos := p;
+                                c_skip := (match r with CRNotFound => c_skip cur | _ => 0%Z end); c_pend := pend |}) in
       match op with
       | CNext =>
         if (0 <? c_skip cur)%Z then fin CROk cc (c_pos cur)
@@ -93,7 +96,7 @@ Definition cursor_to (c : chain) (cur : cursor) (op : cop) : cres * cursor :=
 
 (* EQ / GE : _cursor_get_ge_idx *)
 Definition cursor_to_key (c : chain) (cur : cursor) (ge : bool) (k : K) : cres * cursor :=
-  let fail := (CRNotFound, {| c_cn := c_cn cur; c_pos := c_pos cur; c_skip := 0; c_pend := c_pend cur |}) in
+  let fail := (CRNotFound, {| c_cn := c_cn cur; c_pos := c_pos cur; c_skip := c_skip cur; c_pend := c_pend cur |}) in
   match lower_of K V cmp c k with
   | None => fail
   | Some (lid, lrecs) =>
